@@ -82,6 +82,26 @@ def cases(ctx):
                 if ctx.mine(k):
                     yield {"kind": "header", "flavour": flav, "version": ver, "app_id": app,
                            "instrs": [["set", [["C", 3], 0x01020304]]]}
+    # header-only subroutines (no commands) and template operands filled in by instantiate() (the pre-compiled flow)
+    for flav in ("vanilla", "nv", "reids"):
+        for app in (0, 1, 65535):
+            k += 1
+            if ctx.mine(k):
+                yield {"kind": "sequence", "flavour": flav, "version": [rng.randrange(256), rng.randrange(256)], "app_id": app, "instrs": []}
+        for m in sorted(x for x in isa.TABLE[flav] if x.startswith("rot_")):
+            for slot in (1, 2):
+                for v in (0, 1, 2, 127, 128, 254, 255):
+                    k += 1
+                    if ctx.mine(k):
+                        vals = codec.rand_values(rng, isa.TABLE[flav][m][1])
+                        vals[slot] = v
+                        yield {"kind": "template", "flavour": flav, "mnemonic": m, "slot": slot, "values": vals, "app_id": rng.randrange(65536)}
+            for v in (0, 3, 255):       # numerator and denominator filled from the same template name
+                k += 1
+                if ctx.mine(k):
+                    vals = codec.rand_values(rng, isa.TABLE[flav][m][1])
+                    vals[1] = vals[2] = v
+                    yield {"kind": "template", "flavour": flav, "mnemonic": m, "slot": 1, "both": True, "values": vals, "app_id": rng.randrange(65536)}
     if ctx.shard == 0:
         for flav in ("vanilla", "nv"):
             yield {"kind": "threaded", "flavour": flav, "threads": 4, "rounds": ctx.n(250, 40000), "version": [1, 0],
@@ -137,10 +157,43 @@ def _threaded(ctx, case):
     ctx.case(case, True)
 
 
+def _template(ctx, case):
+    """A rotation whose numerator or denominator is a template: instantiate(app, {name: v}) must give exactly the reference bytes
+    of the rotation with v in that slot (v = 0 included)."""
+    from netqasm.lang.operand import Template
+    from netqasm.lang.subroutine import Subroutine
+    flav, m, vals, slot = case["flavour"], case["mnemonic"], case["values"], case["slot"]
+    fobj = codec.flavour_obj(flav)
+    kinds = isa.TABLE[flav][m][1]
+    ops = [codec.mk_operand(kd, v) for kd, v in zip(kinds, vals)]
+    ops[slot] = Template("t")
+    if case.get("both"):
+        ops[2] = Template("t")
+    try:
+        sub = Subroutine(netqasm_version=(1, 0), app_id=None, instructions=[fobj.get_instr_by_name(m).from_operands(ops)])
+    except Exception:
+        ctx.count("template_slot_not_supported")
+        return ctx.case(case, False)
+    ctx.count("template_instantiations")
+    try:
+        sub.instantiate(case["app_id"], {"t": vals[slot]})
+        raw = bytes(sub)
+    except Exception as e:
+        ctx.fail(case, f"{flav}: {m} with a template in operand {slot} instantiated with {vals[slot]} cannot be encoded: {type(e).__name__}: {str(e)[:120]}")
+        return ctx.case(case, True)
+    ref = isa.encode_subroutine(flav, [1, 0], case["app_id"], [[m, vals]])
+    ctx.count("byte_comparisons")
+    if raw != ref:
+        ctx.fail(case, f"{flav}: {m} {vals} via template instantiation encodes as {raw[4:].hex()} (header {raw[:4].hex()}), reference {ref[4:].hex()} ({ref[:4].hex()})")
+    ctx.case(case, True)
+
+
 def run_case(ctx, case):
     from netqasm.lang.parsing import deserialize
     if case["kind"] == "threaded":
         return _threaded(ctx, case)
+    if case["kind"] == "template":
+        return _template(ctx, case)
     flav = case["flavour"]
     fobj = codec.flavour_obj(flav)
     ref = isa.encode_subroutine(flav, case["version"], case["app_id"], case["instrs"])
